@@ -162,7 +162,7 @@ func runC14(c *Ctx) {
 
 	// MOUNT: every buffer in handleMountCall
 	runC14Mount(c, ent)
-	runC14Drain(c, ent)
+	runC14PreDispatch(c, ent)
 	runC14RPC(c, ent)
 }
 
